@@ -169,6 +169,29 @@ func (s *c10) genBlock(r *kit.Rng) []*wire.MsgTx {
 			pushStyle = 0
 		}
 		tx := buildTx(1, ins, outs, uint32(r.Intn(1<<20)))
+		if r.Chance(1, 10) && len(tx.TxOut) > 0 {
+			// a token-bearing output whose category id is something the
+			// wallet may well have in its filter (category ids are txids):
+			// token data is not a data element of the script
+			var cat [32]byte
+			switch {
+			case len(txs) > 0 && r.Chance(1, 2):
+				cat = txs[r.Intn(len(txs))].TxHash()
+			default:
+				copy(cat[:], s.hashes[r.Intn(len(s.hashes))])
+			}
+			amt := uint64(r.Range(1, 200))
+			if td, err := wire.NewTokenData(cat, &amt, nil, nil); err == nil {
+				tx.TxOut[r.Intn(len(tx.TxOut))].TokenData = *td
+				if stableTx(tx) {
+					s.st.Probe("token-output-with-watched-category")
+				} else {
+					for _, o := range tx.TxOut {
+						o.TokenData = wire.TokenData{}
+					}
+				}
+			}
+		}
 		txs = append(txs, tx)
 	}
 	return txs
@@ -245,6 +268,9 @@ func (s *c10) Gen(r *kit.Rng) (kit.Op, bool) {
 		}
 		return kit.Op{K: "addop", D: kit.Hex(h), N: []int64{int64(r.Intn(3))}}, true
 	case 2:
+		if r.Chance(1, 3) {
+			return kit.Op{K: "add", D: kit.Hex(s.hashes[r.Intn(len(s.hashes))])}, true
+		}
 		if len(s.lastTxs) == 0 {
 			s.lastTxs = s.genBlock(r)
 		}
